@@ -16,7 +16,7 @@ LEVEL = 'exploration'
 RULE = ('Engine A: lattice of experiment frames with cooldown: 4 shapes x n_pre in {3 (one residual degree of freedom),4,6,10} x n_test in {1,2,4} x cooldown in '
         '{1,2} x control swing in the test period in {0, 20, 80, 240} (so that the reference cumulative scale decreases) x '
         'unassigned-period dates in {none, lead, gap, trail} x cost scenario in {fixed, variable, treatment-pre-cost-only (control never spends: slope-free cost regression)} x metric in {response, cost} x '
-        'level in {0.6,0.8,0.9,0.95} x tails. Oracle: the call succeeds; lower <= estimate <= upper on every date for all three '
+        'level in {0.6,0.8,0.9,0.95} x tails x object state in {fresh, already fitted to ANOTHER experiment and asked for all reports}. Oracle: the call succeeds; lower <= estimate <= upper on every date for all three '
         'series; counterfactual + pointwise = observed treatment series; pre-period pointwise = reference OLS residuals; last '
         'cumulative row = incremental effect and the reference quantiles; series cover exactly the analysed dates. Known '
         'finding K1 is keyed by the REFERENCE condition "cumulative scale of the closed-form posterior is not non-decreasing" '
@@ -43,6 +43,8 @@ def cases(tier, seed):
                     for metric, level, tails in combos:
                         out.append({'spec': {'shape': sh, 'npre': npre, 'ntest': ntest, 'ncool': ncool, 'seed': seed, 'swing': swing, 'lift': 8},
                                     'scen': scen, 'extra': extra, 'metric': metric, 'level': level, 'tails': tails})
+                        if thorough or extra is None:
+                            out.append(dict(out[-1], state='refit'))
     return out
 
 
@@ -58,6 +60,8 @@ def run_case(case):
     def add(key, msg):
         viol.append({'key': 'C18:' + key, 'msg': msg})
     m = TBRiROAS(use_cooldown=True)
+    if case.get('state') == 'refit':
+        c07.used_before(m, dict(case, spec=dict(spec, ncool=ncool)))
     m.fit(df)
     metric = case['metric']
     xs, ys = (x, y) if metric == 'tbr_response' else (cc, ct)
